@@ -565,7 +565,7 @@ def foreign_activity(script, f, w, simenv):
         return
     names = (sorted(script["bind"]) or ["a", "b"]) if f.get("same_free_names") else ["zz%d" % i for i in range(2)]
     if f["kind"] == "blackbird":
-        txt = "name foreign\nversion 1.0\n\nMeasureX | 0\nDgate({q0}*0.3, 0.0) | %d\n" % (1 if n > 1 else 0)
+        txt = "name foreign\nversion 1.0\n\nMeasureX | 0\nDgate(q0*0.3, 0.0) | %d\nRgate({zz0}) | 0\n" % (1 if n > 1 else 0)
         if n > 1:
             from strawberryfields import io as sfio
             try:
